@@ -189,6 +189,27 @@ def _choice_noninvolutive_order(M, t):
     return any(order[order[i]] != i for i in range(len(order)))
 
 
+def _has_retagged_string(M, t):
+    if t["k"] == "STRING":
+        return True
+    return t["k"] == "TAGGED" and M.resolve(t)["k"] in ("OCTETS", "BITS", "STRING")
+
+
+def _has_explicit_tag(M, t):
+    tagging = M.mod["tagging"]
+    if t["k"] == "TAGGED":
+        if t["mode"] == "E" or (t["mode"] == "D" and tagging == "EXPLICIT") or M.deref(t["t"])["k"] == "CHOICE":
+            return True
+    if tagging == "AUTOMATIC" and t["k"] in ("SEQUENCE", "SET", "CHOICE"):
+        return any(M.deref(c["t"])["k"] == "CHOICE" for c in M.comps(t))
+    return False
+
+
+def _has_boolean_default_true(M, t):
+    return t["k"] in ("SEQUENCE", "SET") and any(c["o"] == "D" and M.resolve(c["t"])["k"] == "BOOLEAN" and c["d"] is True
+                                                  for c in M.comps(t))
+
+
 def _set_default_explicit(t, v):
     """a SET value that stores a component equal to its DEFAULT explicitly"""
     if t["k"] != "SET":
@@ -223,6 +244,9 @@ PREDS = {
     "has_set": any_type(_has_set),
     "tag_ge_2p30": any_type(_tag_ge_2p30),
     "tagged_choice_ref": any_type(_tagged_choice_ref),
+    "has_retagged_string": any_type(_has_retagged_string),
+    "has_explicit_tag": any_type(_has_explicit_tag),
+    "has_boolean_default_true": any_type(_has_boolean_default_true),
     "choice_noninvolutive_order": any_type(_choice_noninvolutive_order),
     "set_default_explicit": any_leaf(_set_default_explicit),
 }
